@@ -130,6 +130,7 @@ def gen_plan(seed, tier="quick"):
         "spike_dtype": r.choice(["int64", "int64", "uint64", "int32", "uint32"]),     # spike sorters save unsigned times
         "prelude_same_outdir": r.random() < 0.4,
         "explicit_h": r.random() < 0.3,
+        "reader_sort_false": r.random() < 0.2,     # reader_kwargs={"sort": False}: traces and geometry in the file's own channel order
         "interrupted_first": r.choice([None, None, None, {"kind": r.choice(["kill", "torn", "io_error"]), "rseed": r.randrange(1 << 30)}]),
     }
 
@@ -193,8 +194,10 @@ def _extract(plan, src, outdir, chunk, n_jobs, schedule, scratch):
     sp = np.array(plan["spikes"], dtype=np.int64).reshape(-1, 3)
     err = None
     kw = {}
+    if plan.get("reader_sort_false"):
+        kw["reader_kwargs"] = {"sort": False}
     if plan.get("explicit_h"):
-        sx = spikeglx.Reader(src)
+        sx = spikeglx.Reader(src, **kw.get("reader_kwargs", {}))
         kw["h"] = {k: np.array(v) for k, v in sx.geometry.items()}
         sx.close()
     try:
@@ -288,7 +291,15 @@ def _run(plan, base):
     sr = spikeglx.Reader(binf)
     V = sr[:, :-sr.nsync]
     h = sr.geometry
-    neigh = _neighbours(np.asarray(h["x"], dtype=float), np.asarray(h["y"], dtype=float))
+    hx, hy = np.asarray(h["x"], dtype=float), np.asarray(h["y"], dtype=float)
+    if plan.get("reader_sort_false"):
+        # the file's own channel order: column order[i] of the file is column i of the sorted view, so the expected
+        # traces and site positions are the sorted ones put back (no use of the reader's sort=False code path)
+        order = np.asarray(sr.raw_channel_order)[:nap]
+        Vf, xf, yf = np.empty_like(V), np.empty_like(hx), np.empty_like(hy)
+        Vf[:, order], xf[order], yf[order] = V, hx, hy
+        V, hx, hy = Vf, xf, yf
+    neigh = _neighbours(hx, hy)
     sr.close()
     src = binf
     if plan["form"] == "cbin":
@@ -309,6 +320,8 @@ def _run(plan, base):
     stats["config"][f"n_jobs={plan['n_jobs']}"] = 1
     stats["config"][plan["form"]] = 1
     stats["config"]["preprocess_" + plan.get("preprocess", "none")] = 1
+    if plan.get("reader_sort_false"):
+        stats["config"]["reader_sort_false"] = 1
     sigbase = f"n{plan['n_jobs']}"
     try:
         if not valid.any():
@@ -432,7 +445,7 @@ def _prelude(plan, base, probe, stats, sigbase):
     sp = sorted((r.randrange(50, ns - 100), 1 + i % 2, r.choice([0, nap - 1, r.randrange(nap)])) for i in range(12))
     sp = sorted(set((t, u, c) for t, u, c in sp))
     sp = [s_ for i, s_ in enumerate(sp) if i == 0 or s_[0] != sp[i - 1][0]]
-    p2 = dict(plan, spikes=[list(x) for x in sp], ns=ns, max_wf=8, fixture=plan["prelude"])
+    p2 = dict(plan, spikes=[list(x) for x in sp], ns=ns, max_wf=8, fixture=plan["prelude"], reader_sort_false=False)
     od = base / ("out_sim" if plan.get("prelude_same_outdir") else "out_prelude")     # the main extraction may have to overwrite these files
     od.mkdir()
     src = binf
@@ -593,7 +606,7 @@ def _check_files(plan, tag, out, V, neigh, sp, valid, ns, nap, od, res, chunk, n
 
 
 def shrink_candidates(plan):
-    for key, val in (("form", "bin"), ("delay", None), ("io_mode", False), ("preprocess", "none"), ("order", None), ("victim", None), ("p_switch", 0.0), ("prelude", None), ("interrupted_first", None)):
+    for key, val in (("reader_sort_false", False), ("form", "bin"), ("delay", None), ("io_mode", False), ("preprocess", "none"), ("order", None), ("victim", None), ("p_switch", 0.0), ("prelude", None), ("interrupted_first", None)):
         if plan.get(key) != val:
             c = dict(plan)
             c[key] = val
